@@ -11,7 +11,7 @@ from asyncio import events
 
 class Job:
     '''A run_in_executor call: the body runs when the scheduler picks it, not before.'''
-    __slots__ = ('func', 'args', 'fut', 'name', 'seq', 'held', 'started', 'result')
+    __slots__ = ('func', 'args', 'fut', 'name', 'seq', 'held', 'started', 'result', 'deliver')
 
     def __init__(self, func, args, fut, seq):
         self.func = func
@@ -149,9 +149,11 @@ class VLoop(asyncio.BaseEventLoop):
     def pending_jobs(self):
         return [j for j in self.jobs if not j.started]
 
-    def run_job(self, job):
+    def run_job(self, job, deliver=True):
         '''Run a job body atomically and post its completion like call_soon_threadsafe would.
-        A job whose asyncio future was cancelled still runs: a thread cannot be cancelled.'''
+        A job whose asyncio future was cancelled still runs: a thread cannot be cancelled.
+        deliver=False: the body runs now but the completion is kept back (job.deliver()) - a
+        thread descheduled after its last read, before it returns.'''
         assert not job.started
         job.started = True
         self.jobs.remove(job)
@@ -166,14 +168,17 @@ class VLoop(asyncio.BaseEventLoop):
             value, exc = None, e
         job.result = (value, exc)
 
-        def deliver():
+        def hand_over():
             if job.fut.cancelled():
                 return
             if exc is not None:
                 job.fut.set_exception(exc)
             else:
                 job.fut.set_result(value)
-        self.call_soon(deliver)
+        if deliver:
+            self.call_soon(hand_over)
+        else:
+            job.deliver = lambda: self.call_soon(hand_over)
         return job
 
     # -- default policy ---------------------------------------------------------------------
